@@ -69,6 +69,15 @@ def gen_histories(ctx):
     want = sum(n for _, n in plan)
     if len(scripts) < want // 2:
         raise vlib.Inconclusive("history generation produced only %d of %d scripts" % (len(scripts), want))
+    # every third history spells the version of every other Add in its other accepted form (1.0 for 1.0.0, v1.1.0, 2):
+    # the spelling of a version is not part of its identity
+    for i, sc in enumerate(scripts):
+        if i % 3 == 1:
+            k = 0
+            for st in sc["steps"]:
+                if st["op"] == "Add":
+                    k += 1
+                    st["alt"] = (k % 2 == 0)
     return scripts
 
 
